@@ -286,7 +286,11 @@ namespace foonathan
             {
                 FOONATHAN_MEMORY_ASSERT_MSG(node_size <= max_node_size(), "node_size too big");
                 auto& pool = pools_.get(node_size);
-                reserve_memory(pool, capacity);
+                // only if it is big enough for at least one node
+                if (pool.usable_size(capacity) < pool.node_size())
+                    return;
+                auto block = reserve_memory(pool, capacity);
+                pool.insert(block.memory, block.size);
             }
 
             /// \returns The maximum node size for which is a free list.
